@@ -17,7 +17,7 @@
     - CellID arithmetic is the uint64 arithmetic of s2/cellid.go on [Z].
 
     The code modelled is the REPAIRED /repo (11e5dc5 testedEdges, a8394b9 initCovering,
-    a6eab98 setMaxError). The unrepaired variants are kept as [maybe_add_result] with
+    a6eab98 setMaxError, bd38ae9 clamped sub, 6fd85ac MaxError tested against a zero angle). The unrepaired variants are kept as [maybe_add_result] with
     [old_tested = true] and [init_covering] with [brk = true] for the refutation witnesses. *)
 From Coq Require Import ZArith List Bool Floats.
 Import ListNotations.
@@ -199,9 +199,11 @@ Record dist_ops (D : Type) := mkOps {
   d_sub : D -> D -> D;          (* distance.sub *)
   d_zero : D;                   (* distance.zero() *)
   d_inf : D;                    (* distance.infinity() *)
-  d_eqb : D -> D -> bool        (* Go == on the chord angles *)
+  d_eqb : D -> D -> bool;       (* Go == on the chord angles *)
+  d_err0 : D                    (* fromChordAngle(0): the zero error (6fd85ac: MaxError is tested against it) *)
 }.
 Arguments d_less {D}. Arguments d_sub {D}. Arguments d_zero {D}. Arguments d_inf {D}. Arguments d_eqb {D}.
+Arguments d_err0 {D}.
 
 Record options (D : Type) := mkOptions {
   o_max_results : Z;
@@ -443,7 +445,7 @@ Section Query.
           else st0 in
         if o_interiors o && deqb (s_limit st1) dzero then (qs, false, st1)
         else
-          let uses := negb (deqb (o_max_error o) dzero) && t_uses_max_error t in
+          let uses := negb (deqb (o_max_error o) (d_err0 ops)) && t_uses_max_error t in
           let conservative :=
             uses && (deqb (s_limit st1) dinf || less dzero (sub (s_limit st1) (o_max_error o))) in
           let min_opt := t_max_brute t + 1 in
